@@ -414,8 +414,11 @@ def doOp (d : DSt) : List String → DSt × String
       | none => (d, "noinst")
       | some i =>
         if kindOf d i == "k" then
-          -- a `k` worker does not return when asked to: it calls `Shutdown()` and returns when it is cancelled
-          (settle { d with kicked := d.kicked ++ [i] }, "ok")
+          -- a `k` worker does not return when asked to: it calls `Shutdown()` and returns when it is cancelled.  (Asked
+          -- before it runs, nothing happens: a shutdown that begins while `Start` is still starting the other workers
+          -- races their handlers, which a sequential case cannot contain.)
+          if (d.s.objs i).pc == .reg then (d, "notstarted")
+          else (settle { d with kicked := d.kicked ++ [i] }, "ok")
         else
           (settle { d with finReq := i :: d.finReq }, "ok")
     | none => (d, "bad-op")
